@@ -36,6 +36,13 @@ def jobs(tier):
                     js.append(("job_tamper", dict(_name="q=%s %s params=%s delivered=(%s,%s)" % (qn, fl, variant, la, lb),
                                                   qn=qn, fl=fl, variant=variant, la=la, lb=lb)))
     js.append(("job_pool_ground", dict(_name="in-flight modification pool on the shipped sets (ground)")))
+    # GC3 for the real groups is part of this property: raw inbound bytes enter the transcript, so every element must
+    # have exactly one accepted byte string (jobs shared with C05)
+    for g in ("I1024", "I2048", "I3072"):
+        js.append(("job_int_lengths", dict(_name="real %s: only W-byte strings decode" % g, gname=g)))
+        js.append(("job_int_element_codec", dict(_name="real %s: accepted strings re-encode to themselves" % g, gname=g)))
+    for n in (31, 32, 33):
+        js.append(("job_ed_decode", dict(_name="real Ed25519 decode len=%d" % n, n=n)))
     return js
 
 
@@ -269,6 +276,17 @@ def oracle_modpool(name):
                 oA, oB = res["oA"], res["oB"]
                 if oA[0] == "key" and oB[0] == "key" and oA[1] == oB[1]:
                     return (True, "%s %s: both ends agree on a key although messages were altered (to A: %s, to B: %s)" % (name, fl, na, nb))
+        # an element whose encoding starts with 00, delivered with that byte removed / re-padded (integer groups)
+        if name != "Ed25519" and fl == "AB":
+            sp = C.S()
+            yz, mz = C.leading_zero_scalar(lambda y: sp.SPAKE2_B(b"pw", idA=b"a", idB=b"b", params=params,
+                                                                 entropy_f=C.entropy_for_scalar(params.group, y)).start())
+            if yz is not None:
+                for nm_, da in (("leading 00 byte of the element removed", mz[:1] + mz[2:]),
+                                ("leading 00 removed, 00 appended", mz[:1] + mz[2:] + b"\x00")):
+                    res = C.run_exchange(fl, params, b"pw", b"a", b"b", 5, yz, deliver_to_A=da)
+                    if res["oA"][0] == "key" and res["oB"][0] == "key" and res["oA"][1] == res["oB"][1]:
+                        return (True, "%s %s: both ends agree on a key although the message to A was altered (%s)" % (name, fl, nm_))
         # mismatched inputs
         for kw in (dict(pwB=b"pw2"), dict(idA_B=b"x"), dict(idB_B=b"x") if fl == "AB" else dict(idA_B=b"y"),
                    dict(idA_B=b"b", idB_B=b"a") if fl == "AB" else dict(pwB=b"")):
@@ -278,4 +296,16 @@ def oracle_modpool(name):
     return (False, "no modification of the pool leads to agreement")
 
 
-ORACLES = dict(tamper=oracle_tamper, modpool=oracle_modpool)
+from checks.c05 import job_int_lengths, job_ed_decode, job_int_element_codec      # noqa: E402
+from checks.pools import oracle_pool                                                # noqa: E402
+
+
+def oracle_pool_and_mods(group, extra=()):
+    v = oracle_pool(group, extra)
+    bad = v.get("violated") if isinstance(v, dict) else v[0]
+    if bad:
+        return v
+    return oracle_modpool(group)
+
+
+ORACLES = dict(tamper=oracle_tamper, modpool=oracle_modpool, pool=oracle_pool_and_mods)
